@@ -82,6 +82,7 @@ V: list[Any] = [None, True, False, 0, 1, 2, -1, 1.5, "", "a", "B", " ", "1", [],
 VPLUS: list[Any] = [
     float("nan"), float("inf"), float("-inf"), 10**400, 2**63, -(2**63), 1e308, "1e400", "inf", "nan", "50%", "%(x)s", "{0.__class__}",
     -3, "-3", deep(6), deep_dict(8), 10**5, "9" * 5000, [None, {"k": float("nan")}, "x"], {"first": 1, "last": 2}, 1e-320,
+    10**5000, -(10**4300), [1, 10**5000],
 ]  # fmt: skip
 VALL = V + VPLUS
 
@@ -89,7 +90,24 @@ DATASETS = [
     {"a": [1, 2, 3], "b": {"c": "d"}, "x": "s", "y": 2, "z": -1},
     {"a": float("nan"), "b": 10**400, "x": deep(6), "y": float("inf"), "z": "50%"},
     {"a": "str", "b": [None, {"k": 1}], "x": -3, "y": "1e400", "z": [[], {}]},
+    {"a": 10**5000, "b": [10**5000], "x": {"k": 10**5000}, "y": -(10**5000), "z": 10**4300},
 ]
+
+
+def _srepr(x: Any, depth: int = 0) -> str:
+    """repr() that survives integers the interpreter refuses to print."""
+    if isinstance(x, bool) or not isinstance(x, (int, list, dict)):
+        return repr(x)[:120]
+    if isinstance(x, int):
+        try:
+            return repr(x) if abs(x) < 10**30 else f"<int of {x.bit_length()} bits>"
+        except ValueError:
+            return f"<int of {x.bit_length()} bits>"
+    if depth > 3:
+        return "..."
+    if isinstance(x, list):
+        return "[" + ", ".join(_srepr(v, depth + 1) for v in x[:6]) + "]"
+    return "{" + ", ".join(f"{k!r}: {_srepr(v, depth + 1)}" for k, v in list(x.items())[:6]) + "}"
 
 
 def printable_error(e: LiquidError) -> str | None:
@@ -259,7 +277,7 @@ def check_site(site: str, arity: int, tier: str, res: ShardResult | None, only: 
                     sig = _sig_exc("render", e)
                     if sig not in seen_sigs:
                         seen_sigs.add(sig)
-                        out.append((sig, {"site": site, "values": [i, j, k], "data": repr(d)[:300]}, "LiquidError or output", f"{type(e).__name__}: {e}"[:300]))
+                        out.append((sig, {"site": site, "values": [i, j, k], "data": _srepr(d)}, "LiquidError or output", f"{type(e).__name__}: {e}"[:300]))
         except TimeBudget:
             kind = "timeout"
             big = [(n, idx) for n, idx in (("x", i), ("y", j), ("z", k)) if isinstance(VALL[idx], (int, float)) and not isinstance(VALL[idx], bool) and abs(VALL[idx]) > 10**6]
@@ -267,7 +285,7 @@ def check_site(site: str, arity: int, tier: str, res: ShardResult | None, only: 
             sig = "C02:cpu-budget-exceeded:value-site:" + _site_class(site)
             if sig not in seen_sigs:
                 seen_sigs.add(sig)
-                out.append((sig, {"site": site, "values": [i, j, k], "data": repr(d)[:300]}, "finishes within 3 s", "timeout"))
+                out.append((sig, {"site": site, "values": [i, j, k], "data": _srepr(d)}, "finishes within 3 s", "timeout"))
         if res is not None:
             res.outcomes.add(h64([kind]))
             if kind != "ok" or i >= len(V) or j >= len(V):
